@@ -706,6 +706,33 @@ def obs_summary(kind, v):
 
 RUNNERS = {"dom": (run_dom, DOM), "fac": (run_fac, FAC), "bind": (run_bind, BIND)}
 
+def run_model_c20(cf, values, seed, coq_sample=16, per_code=6):
+    """core.run_model with a kernel re-evaluation that stays cheap on these large case terms
+    (Coq elaborates ~10 kB of case text per second): all cases through the extracted driver;
+    inside Coq (vm_compute), in parallel shards, a random sample plus for every non-zero verdict
+    code its smallest cases; both must agree."""
+    codes = run_ocaml(cf, values)
+    rng = random.Random(seed * 7919 + 13)
+    idx = list(range(len(values)))
+    size = {}
+    def sz(i):
+        if i not in size: size[i] = len(cf.ty.sexp(values[i]))
+        return size[i]
+    pick = set()
+    for c in sorted({c for c in codes if c != 0}):
+        bad = sorted((i for i in idx if codes[i] == c), key=sz)
+        pick.update(bad[:per_code if c in (3, 4, 5) else 40])    # 3, 4, 5: the known-finding classes
+    rest = [i for i in idx if codes[i] == 0]
+    rng.shuffle(rest)
+    pick.update(rest[:coq_sample])
+    pick = sorted(pick)
+    if pick:
+        ccodes = run_coq(cf, [values[i] for i in pick], shard=max(1, (len(pick) + 3) // 4), jobs=4, tag=cf.kind)
+        for i, c in zip(pick, ccodes):
+            if c != codes[i]:
+                raise BuildError("extracted code and vm_compute disagree on %s case %d: %d vs %d" % (cf.kind, i, codes[i], c))
+    return codes, len(pick)
+
 def nontrivial(kind, spec):
     if kind == "dom":
         d = spec["dom"]
@@ -725,6 +752,11 @@ def run(tier, seed):
              "fac": "FiniteFactor(doms, weights) / ConstantFactor; .apply(values); ==",
              "bind": "FactorGraph()/FGG('S'): add_domain, add_factor, new_finite_domain, new_finite_factor, shape, add_edge_label"}
     total = 0; nk_total = 0; hist = {}; distinct = 0; samples = []; verdicts = {}
+    import time
+    phase = {}; t_last = time.time()
+    def lap(name):
+        nonlocal t_last
+        phase[name] = round(time.time() - t_last, 1); t_last = time.time()
     for kind in ("dom", "fac", "bind"):
         runner, cf = RUNNERS[kind]
         items, vals = [], []
@@ -738,7 +770,9 @@ def run(tier, seed):
                 continue
             items.append((gen, spec)); vals.append(v)
             hist[kind + ":" + gen] = hist.get(kind + ":" + gen, 0) + 1
-        codes, nk = run_model(cf, vals, seed=seed, tag=cf.kind)
+        lap(kind + ":impl")
+        codes, nk = run_model_c20(cf, vals, seed)
+        lap(kind + ":model")
         nk_total += nk; total += len(vals)
         judge(kind, cf, msgs[kind][0], msgs[kind][1], items, vals, codes, violations, calls[kind])
         for c in codes: verdicts["%s:%d" % (kind, c)] = verdicts.get("%s:%d" % (kind, c), 0) + 1
@@ -751,7 +785,7 @@ def run(tier, seed):
                     "fac: (domain sizes, weight shape) pairs up to rank 3 over sizes 0..3 (quick: all pairs with sizes <= 2, every matching pair, 1500 sampled others; thorough: all 7225) in the three forms nested list / Tensor / PatternedTensor, plus eye/full patterned tensors, infinite and F15 domains, malformed nested lists (ragged, mixed depth, empty rows); apply on every complete value tuple, prefixes, over-long and unknown values; == against 6-9 other factors. "
                     "bind: every pairing of an edge label (terminal/nonterminal, type over {A,B}, arity 0..3) with a factor (domains over {D2, D3, R2}, arity 0..3) under pre-states (label unregistered / registered / clashing / nonterminal clash / already bound; node labels mapped to equal / different / no domain), all matching pairings under every pre-state, equal-by-content vs different domain in every position, new_finite_domain / new_finite_factor grids, random histories; FactorGraph and FGG alternate; shape() on label lists, tuples, node lists, EdgeLabel, Edge. "
                     "non-trivial = domain of size >= 2 (or range size >= 2), factor of rank >= 1, history with >= 3 calls including a factor binding; distinct by spec",
-               samples=samples, generator_histogram=hist, verdict_histogram=verdicts, kernel_reevaluated=nk_total,
+               samples=samples, phase_seconds=phase, generator_histogram=hist, verdict_histogram=verdicts, kernel_reevaluated=nk_total,
                open_items=[])
     return cov, violations
 
